@@ -171,7 +171,7 @@ PROPS = {
         "trusted_base": ["Model.Scope and Model.Instrument are tied by the differential on random histories"],
     },
     "C11": {
-        "suites": ["scope-c11", "c11conc", "c20cache", "racescope"],
+        "suites": ["scope-c11", "c11conc", "c11big", "c20cache", "racescope"],
         "assumptions": COMMON_ASSUME + [
             "Model.Scope is sequential: one API call at a time (concurrency of these paths is C01/C02/C07/C09)",
             "the registry shard of a request is observed through a shim and given to the model as an input",
@@ -181,7 +181,7 @@ PROPS = {
         "trusted_base": ["Model.Scope.snapshot is tied by the differential on random histories with snapshots at random points"],
     },
     "C14": {
-        "suites": ["c14", "c14race", "c12conc"],
+        "suites": ["c14", "c14race", "c12conc", "c14big"],
         "assumptions": COMMON_ASSUME + [
             "channels: a send on a buffered channel is enabled iff it is open and not full (a send on a closed channel panics, also inside a select), a receive from a closed channel is always enabled, closing a closed channel panics, `range` over a channel ends when it is closed and drained (Go spec); modelled as the queue/closed flags of Model.M3Life",
             "queue capacity >= 1 (NewReporter replaces MaxQueueSize <= 0 by 4096: tie queue_capacity_positive)",
@@ -196,7 +196,7 @@ PROPS = {
         "timeout": {"quick": 300, "thorough": 3000},
     },
     "C12": {
-        "suites": ["c12", "c15", "c12conc", "c13fault"],
+        "suites": ["c12", "c15", "c12conc", "c13fault", "c13pool"],
         "assumptions": COMMON_ASSUME + [
             "the thrift encodings are those of Tally/Model/Thrift.lean (C16: byte-for-byte differential against the generated client); sizes in the spec are measured with that codec on the received bytes",
             "a metric's charge is fixed at allocation and value-independent, so 'charged >= bytes with the worst value of its kind' per metric + 'reserved overhead >= everything that is not a metric' + 'charges of a batch <= freeBytes' are judged per datagram; together they imply the bound for every batch composition (theorem datagram_le_max)",
@@ -210,7 +210,7 @@ PROPS = {
         "timeout": {"quick": 300, "thorough": 3000},
     },
     "C13": {
-        "suites": ["c13", "c12", "c13fault", "c12conc", "c13big"],
+        "suites": ["c13", "c12", "c13fault", "c12conc", "c13big", "c13pool"],
         "assumptions": COMMON_ASSUME + [
             "a concurrent history is represented by the order in which its sends on metCh, its tag-cache accesses and its clock stores took effect (the queue totally orders the sends; cache and interner are lock protected and monotone); the bounded queue only delays senders",
             "the harness logs reports per producer goroutine; emitted metrics are matched to log entries by name and kind in per-producer order (names are distinct per producer), values / tags / timestamps of the matched pairs are then judged clause by clause; tally.internal.* telemetry sent by Flush is excluded from the matching",
